@@ -770,12 +770,10 @@ func verifYamlJson(n JsonNode) bool {
 	if err != nil || !j.Equals(n) {
 		return false
 	}
-	// JSON text is YAML: reading it as YAML gives the same document
-	jy, err := ReadYamlString(n.Json())
-	if err != nil || !jy.Equals(n) {
-		return false
-	}
-	return true
+	// the document read from its YAML form equals the document read from its JSON form
+	// (reading JSON text with the YAML reader is not part of C16: YAML 1.1 folds U+0085 inside
+	// double-quoted scalars, so JSON is not a subset of what yaml.v2 reads)
+	return y.Equals(j) && j.Equals(y)
 }
 
 // ---------------------------------------------------------------------
